@@ -96,10 +96,10 @@ def dispatch_shape(ctx, RD, RW, RLIVE, only_live: bool = False, RLOCK=None):
                 found_loop = True
                 # (i) snapshot keyed by the dequeued watch
                 coll = snapshot_of(L.text)
-                okc = coll is not None and re.fullmatch(r"self\._handlers\[(.+)\]|self\._handlers\.get\((.+?)(,.*)?\)", coll) is not None
+                okc = coll is not None and re.fullmatch(r"self\._handlers\[(.+)\]|self\._handlers\.(?:get|setdefault)\((.+?)(,.*)?\)", coll) is not None
                 key = None
                 if okc:
-                    m = re.fullmatch(r"self\._handlers\[(.+)\]|self\._handlers\.get\((.+?)(,.*)?\)", coll)
+                    m = re.fullmatch(r"self\._handlers\[(.+)\]|self\._handlers\.(?:get|setdefault)\((.+?)(,.*)?\)", coll)
                     key = m.group(1) or m.group(2)
                 cx.check(
                     okc,
@@ -168,7 +168,7 @@ def dispatch_shape(ctx, RD, RW, RLIVE, only_live: bool = False, RLOCK=None):
                                 "dispatch reached without a positive membership test of the handler against a fresh read of "
                                 f"self._handlers[...] (tests on this path: {mem_any or 'none'})"
                             )
-                        elif key is not None and not any(f"self._handlers[{key}]" in a or f"self._handlers.get({key}" in a for a in mem_true):
+                        elif key is not None and not any(f"self._handlers[{key}]" in a or f"self._handlers.get({key}" in a or f"self._handlers.setdefault({key}" in a for a in mem_true):
                             ok_ii = False
                             msg_ii = f"membership is re-checked under a different key than the snapshot ({mem_true})"
                     else:
